@@ -250,7 +250,20 @@ def main(argv=None):
     tasks = mod.tasks(a.tier, seed)
     if a.only:
         tasks = [t for t in tasks if a.only in t.get('harness', '')]
-    if a.tier == 'thorough' and all('est' in t for t in tasks):
+    if a.tier == 'thorough' and not a.only:
+        # the thorough tier starts with everything the quick tier runs (same task descriptions), so that a budget cut can
+        # only remove depth, never the breadth the quick tier already has
+        def key(t):
+            return json.dumps({k: v for k, v in t.items() if k not in ('tier', 'est')}, sort_keys=True, default=str)
+        qt = mod.tasks('quick', seed)
+        seen = {key(t) for t in qt}
+        rest = [t for t in tasks if key(t) not in seen]
+        if all('est' in t for t in rest):
+            srt = sorted(rest, key=lambda t: t['est'])
+            half = len(srt) // 2
+            rest = srt[:half] + sorted(srt[half:], key=lambda t: -t['est'])
+        tasks = qt + rest
+    elif a.tier == 'thorough' and all('est' in t for t in tasks):
         # under a wall-clock budget: the cheaper half first (breadth: everything the quick tier covers and more), then the expensive
         # half largest-first (packing); what the budget cuts off is then the deep end, and it is reported as skipped
         srt = sorted(tasks, key=lambda t: t['est'])
